@@ -136,7 +136,9 @@ def run_case(case):
     d = field.d
     viols, obs = [], {"cases": 1}
     tags = {"kind": kind, "cal": cal, "strategy": case["strategy"], "nu": nu}
-    tol = TOL * (1.0 if nu <= 4 else 100.0)
+    # float-vs-float across factorisations; rounding amplification grows with the order (measured: 8e-8 at nu<=4,
+    # 6e-4 at nu=6 for smoothers) - at nu=6 only gross disagreement is detectable in float64
+    tol = TOL * {1: 1.0, 2: 1.0, 3: 1.0, 4: 1.0, 5: 100.0}.get(nu, 1e4)
 
     def note(name, val, limit=None):
         limit = tol if limit is None else limit
